@@ -40,6 +40,14 @@ def load_catalogue():
                 m = json.loads(mf.read_text())
                 pid = m["breaks_property"]
                 cat.append({"id": m["id"], "kind": "break", "props": [pid], "edits": [], "patch": str(pf), "rules": {pid: m.get("caught_by_rules_of_target_property", [])}, "canary": False, "note": m.get("change", "")})
+    vd = VERIF / "variants"
+    if vd.is_dir():
+        for d in sorted(vd.iterdir()):
+            mf = d / "meta.json"
+            pf = d / "patch.diff"
+            if mf.exists() and pf.exists():
+                m = json.loads(mf.read_text())
+                cat.append({"id": f"variant-{m['id']}", "kind": "break", "props": list(m["breaks"]), "edits": [], "patch": str(pf), "rules": m.get("rules", {}), "canary": False, "note": m.get("change", "")})
     rd = VERIF / "refactors"
     if rd.is_dir():
         for d in sorted(rd.iterdir()):
